@@ -42,7 +42,9 @@ class Voxel(BasePoint):
     """
 
     def __new__(cls, input_array, matrix_indexing=True):
-        obj = np.asarray(input_array).astype(int).view(cls)
+        # Floor (not truncate toward zero) so that points with negative components,
+        # e.g. the centre -0.5 of voxel -1, are assigned to the voxel containing them.
+        obj = np.floor(np.asarray(input_array)).astype(int).view(cls)
         if not matrix_indexing:
             obj = np.fliplr(np.atleast_2d(obj)).reshape(obj.shape).view(cls)
         return obj
@@ -56,7 +58,8 @@ class VoxelCenter(BasePoint):
     """Voxel center coordinate."""
 
     def __new__(cls, input_array, matrix_indexing=True):
-        obj = np.asarray(input_array).astype(int)
+        # Floor (not truncate toward zero), consistent with Voxel.
+        obj = np.floor(np.asarray(input_array)).astype(int)
         obj = obj + 0.5 * np.ones(obj.shape)
         obj = obj.view(cls)
         if not matrix_indexing:
